@@ -249,7 +249,9 @@ func checkCmd(args []string) {
 	}
 	kf := loadKF()
 	t0 := time.Now()
-	timeout := 10 * time.Second
+	// quick tier: obligations on the unchanged tree discharge in a few seconds at most; the generous limit only
+	// matters on a heavily loaded machine (a timeout would be a false alarm)
+	timeout := 25 * time.Second
 	cross := false
 	if *tier == "thorough" {
 		timeout = 60 * time.Second
@@ -313,6 +315,7 @@ func report(id string, pc *PropConfig, res *checkResult, tier string, seed int, 
 	present := map[string]bool{}
 	for _, ob := range res.Obls {
 		present[ob.Name] = true
+		present[normAnchor(ob.Name)] = true
 		solverSecs += ob.Result.Seconds
 		if ob.ExpectSat {
 			nVac++
@@ -365,7 +368,7 @@ func report(id string, pc *PropConfig, res *checkResult, tier string, seed int, 
 		return 2
 	}
 	for _, a := range pc.Anchors {
-		if !present[a] && !hasUndecided {
+		if !present[a] && !present[normAnchor(a)] && !hasUndecided {
 			fmt.Printf("ENGINE ERROR: anchor obligation %q was not generated\n", a)
 			return 2
 		}
